@@ -45,7 +45,13 @@ inductive BK where
 /-- Query trees.  `multi` stands for the multi-term leaves that no rewrite looks into:
     kind 0 `FuzzyTerm`, 1 `Variations`, 2 `Regex`, 3 `NumericRange`/`DateRange`; `key` is an
     injective code of the remaining attributes.  `seq cls` is `Sequence` (`cls = false`) or
-    `Ordered` (`cls = true`). -/
+    `Ordered` (`cls = true`).  `opq fld code` is a span query of `query/spans.py` (`SpanFirst`,
+    `SpanNear`, `SpanNear2`, `SpanOr`, `SpanNot`, `SpanContains`, `SpanBefore`, `SpanCondition`): an
+    opaque leaf for every rewrite (`normalize`/`simplify` are inherited from `Query` and return
+    `self`; `with_boost` only sets an attribute nothing reads; `apply`-based rewrites rebuild it with
+    all constructor arguments); `code` is the canonical text of the whole node (class, every
+    constructor argument, subqueries), `fld` what `field()` returns (`SpanQuery.field` is `None`,
+    `WrappingSpan.field` the field of the wrapped query). -/
 inductive Q where
   | null
   | every (f : Option Field) (boost : Rat)
@@ -60,6 +66,7 @@ inductive Q where
   | not (q : Q) (boost : Rat)
   | bin (k : BK) (a b : Q)
   | const (q : Q) (score : Rat)
+  | opq (fld : Option Field) (code : List Nat)
   deriving Repr, Inhabited
 
 /-! ### Equality as used by `s in seenqs` (`__eq__` + `__hash__`) -/
@@ -82,6 +89,7 @@ def Q.beq : Q → Q → Bool
   | .not q b, .not q' b' => Q.beq q q' && b == b'
   | .bin k a b, .bin k' a' b' => k == k' && Q.beq a a' && Q.beq b b'
   | .const q s, .const q' s' => Q.beq q q' && s == s'
+  | .opq f c, .opq f' c' => f == f' && c == c'
   | _, _ => false
 def Q.beqList : List Q → List Q → Bool
   | [], [] => true
@@ -124,6 +132,7 @@ def Q.boostOf : Q → Rat
   | .not _ b => b
   | .bin _ _ _ => 1
   | .const _ _ => 1
+  | .opq _ _ => 1
 
 mutual
 /-- `Query.field()` and its overrides (`CompoundQuery.field`, `BinaryQuery.field`, `Not.field`,
@@ -142,6 +151,7 @@ def Q.field : Q → Option Field
   | .not _ _ => none
   | .bin _ a b => if Q.field b == Q.field a then Q.field a else none
   | .const q _ => Q.field q
+  | .opq f _ => f
 /-- `CompoundQuery.field`: the field of the first subquery if all others agree, else `None`. -/
 def Q.fieldList : List Q → Option Field
   | [] => none
@@ -173,6 +183,7 @@ def Q.withBoost : Q → Rat → Q
   | .bin .andmaybe x y, b => .bin .andmaybe (Q.withBoost x b) (Q.withBoost y b)
   | .bin .otherwise x y, b => .bin .otherwise (Q.withBoost x b) (Q.withBoost y b)
   | .const q s, b => .const (Q.withBoost q b) s
+  | .opq f c, _ => .opq f c
 end
 
 /-! ### Ranges (`query/ranges.py`) -/
@@ -474,6 +485,7 @@ def normalize : Q → Q
   | .not q b => let q' := normalize q; if q'.isNull then .null else .not q' b
   | .bin k a b => binNormalize k (normalize a) (normalize b)
   | .const q s => .const q s
+  | .opq f c => .opq f c
 def normalizeList : List Q → List Q
   | [] => []
   | q :: qs => normalize q :: normalizeList qs
@@ -521,5 +533,10 @@ def acceptIdList : List Q → List Q
   | [] => []
   | q :: qs => acceptId q :: acceptIdList qs
 end
+
+/-- `q.apply(lambda q: q)`: one level of `apply` (only `Not.apply` loses an attribute, its boost). -/
+def applyId : Q → Q
+  | .not q _ => .not q 1
+  | q => q
 
 end WM.Normalize
